@@ -79,6 +79,8 @@ PROPS = {
         dict(kind="sched", mode="deadlock", quick=500, thorough=0)]),
     "C18": dict(theorems=["Props/C18.v"], parts=[
         dict(kind="sched", mode="consistency", quick=700, thorough=0)]),
+    "C20": dict(theorems=["Props/C20.v", "parts/locks/coq|CLL|Props_C20.v"], parts=[
+        dict(kind="macro", profile="C20", preds="c20", quick=500, thorough=12000, panic_is_failure=True)]),
     "C19": dict(theorems=["parts/attrs/coq|CLA|Props_C19.v", "Props/C01w.v"], parts=[
         dict(kind="ext", name="attrs", quick=2000, thorough=30000),
         dict(kind="macro", profile="C19", preds="pure,limit,ttl,order,err,cif,inv,stats,tags,frame", quick=400, thorough=10000, panic_is_failure=True)]),
@@ -497,7 +499,7 @@ def part_macro(run, part):
                 run.add_violation("panic", "call panicked: %s (case %s)" % (v, cid), "\n".join(small), True, "panic " + v[:80])
                 reported += 1
     bad = [(cid, v) for cid, v in sorted(verdicts.items())
-           if v.startswith("MISMATCH") or v.startswith("PANIC") or v.startswith("CRASH")]
+           if v.startswith("MISMATCH") or v.startswith("PANIC") or v.startswith("CRASH") or v.startswith("BLOCKED")]
     if bad and reported == 0:
         cid, v = bad[0]
         small = shrink_macro_case(cases[cid], preds, ("V", v.split()[0]), run.pid + "_shrink")
